@@ -3,3 +3,5 @@ pub mod c14;
 pub mod c06;
 pub mod c15;
 pub mod trees;
+pub mod c08;
+pub mod c07;
